@@ -314,6 +314,7 @@ func (ex *Exec) onLock(st *State, fr *Frame, k string, recv Val, pos token.Pos) 
 			ex.assume(st, cj.term)
 		}
 	}
+	ex.lockSnap = st.clone()
 }
 
 func sortedCompKeys(m map[string]compInfo) []string {
@@ -467,6 +468,10 @@ func (ex *Exec) compileAssigns(fr *Frame, st *State, ct *FuncContract) {
 // reference (evaluated in the pre-state).
 func (c *evalCtx) compileAssign(e Expr, text string) []assignPat {
 	switch x := e.(type) {
+	case *EIdent:
+		if strings.HasPrefix(x.Name, "$") {
+			return []assignPat{{prefix: "Ghost_" + strings.TrimPrefix(x.Name, "$"), ref: z64(), text: text}}
+		}
 	case *ESel:
 		base := c.eval(x.X)
 		pt, ok := base.T.Underlying().(*types.Pointer)
@@ -585,6 +590,9 @@ func (ex *Exec) checkAssignsMap(st *State, fr *Frame, mt types.Type, m, k string
 
 func (ex *Exec) callModular(st *State, fr *Frame, callee *ssa.Function, ct *FuncContract, args []Val, pos token.Pos) Val {
 	cf := &Frame{fn: callee, regs: map[ssa.Value]Val{}, params: args, ct: ct, depth: fr.depth + 1, parent: fr}
+	for _, a := range args {
+		ex.markEscapedAny(a)
+	}
 	pre := st.clone()
 	cf.entry = pre
 	for i, rq := range ct.Requires {
